@@ -82,6 +82,27 @@ Check (C19_length_delimited_frame_len :
   forall fuel st p st' p' r,
   st_ok st -> V.C03.Model.rd_poll fuel st p = (st', p', r) ->
   st_ok st' /\ (forall b, r = V.C03.Model.FFrame b -> V.C03.Model.len b <= 16383)).
+Check (C19_webrtc_decode_slice :
+  forall data r rest, V.C03.Model.webrtc_decode1 data = Some (r, rest) ->
+  exists l tail, V.C03.Model.uvi_dec data = Some (l, tail) /\ l <= V.C03.Model.len tail /\
+    r = V.C03.Model.decode_msg (firstn (N.to_nat l) tail) /\ rest = skipn (N.to_nat l) tail /\
+    (length rest < length data)%nat /\ (length (firstn (N.to_nat l) tail) < length data)%nat).
+Check (C19_webrtc_truncated_rejected :
+  forall data l tail, V.C03.Model.uvi_dec data = Some (l, tail) -> V.C03.Model.len tail < l ->
+  V.C03.Model.webrtc_decode1 data = None).
+Check (C19_webrtc_dialer_fuel :
+  forall f1 f2 proto w rem, (length rem < f1)%nat -> (length rem < f2)%nat ->
+  V.C03.Model.webrtc_dialer_register f1 proto w rem = V.C03.Model.webrtc_dialer_register f2 proto w rem).
+Check (C19_webrtc_listener_reply_bound :
+  forall names payload h,
+  wl_reply_len (wl_negotiate names payload h) <= N.max V.C03.Model.MAX_FRAME (blen payload)).
+Check (C19_alloc_webrtc_message :
+  forall data m rest, V.C03.Model.webrtc_decode1 data = Some (V.C03.Model.DOk m, rest) ->
+  match m with
+  | V.C03.Model.MProtos ps => (lsum (fun p => S (length p)) ps <= length data)%nat
+  | V.C03.Model.MProto p => (length p <= length data)%nat
+  | _ => True
+  end).
 Check (C19_read_payload_size_ok :
   forall buf s n, read_payload_size buf = RpsOk s n -> s < 2 ^ 64 /\ 1 <= n /\ n <= 10).
 Check (C19_roundtrip_read_payload_size :
